@@ -95,9 +95,9 @@ Print Assumptions C15_end_block_refund_xor_burn.
 
 Theorem C15_pay_out_accounting : forall s p burn s1 ev,
   pay_out s p burn = Some (s1, ev) ->
-  (forall a, bal s1 a = bal s a + refunds_to a ev) /\
+  (forall a, a <> gov_acct -> bal s1 a = bal s a + refunds_to a ev) /\
   burned s1 = burned s + burns_of ev /\
-  gov_bal s1 = gov_bal s - (refunds_of ev + burns_of ev) /\
+  gov_bal s1 = gov_bal s - (refunds_of ev + burns_of ev) + (if burn then 0 else gov_part (p_deps p)) /\
   refunds_of ev + burns_of ev = sum_deps (p_deps p).
 Proof. exact pay_out_accounting. Qed.
 Print Assumptions C15_pay_out_accounting.
@@ -112,6 +112,15 @@ Theorem C15_activation_step : forall P kf cust now d a p,
   p_act_period p' = period_for P kf cust p.
 Proof. exact activation_step. Qed.
 Print Assumptions C15_activation_step.
+
+(* the module account as a depositor: the second shape of finding C15-2, evaluated in the model *)
+Theorem C15_conservation_refuted_by_gov_deposit :
+  pledge_outcome 10 = (Some (SVoting, FXu 12500, [(10, FXu 10000); (gov_acct, FXu 2500)]),
+                       FXu 10000, FXu 12500, FXu 2500, (RHalt, FXu 10000, FXu 990000)) /\
+  pledge_outcome 11 = (Some (SVoting, FXu 12500, [(11, FXu 10000); (gov_acct, FXu 2500)]),
+                       FXu 10000, FXu 12500, FXu 2500, (ROk, 0, FXu 1000000)).
+Proof. exact conservation_refuted_by_gov_deposit. Qed.
+Print Assumptions C15_conservation_refuted_by_gov_deposit.
 
 Theorem C15_voting_only_by_activation : forall P kf p p',
   evolve1 P kf p p' -> p_status p' = SVoting ->
@@ -248,7 +257,9 @@ Theorem C15_atomic_execution : forall P kf stk s id p s1 ev pre m post si,
   find_prop id (props s) = Some p -> p_status p = SVoting ->
   passes (tally P kf (custom s) stk p) = true ->
   pay_out s p (burns (tally P kf (custom s) stk p)) = Some (s1, ev) ->
-  p_msgs p = pre ++ m :: post -> exec_msgs s1 pre = Some si -> exec_one si m = None ->
+  p_msgs p = pre ++ m :: post ->
+  exec_msgs (xenv_of P kf stk id) (passed_state s1 id (tally P kf (custom s) stk p)) pre = Some si ->
+  exec_one (xenv_of P kf stk id) si m = None ->
   exists s', process_active P kf stk s id = Some (s', ev) /\
              world s' = world s1 /\
              exists p', find_prop id (props s') = Some p' /\ p_status p' = SFailed /\
@@ -260,9 +271,9 @@ Theorem C15_all_applied : forall P kf stk s id p s1 ev s2,
   find_prop id (props s) = Some p -> p_status p = SVoting ->
   passes (tally P kf (custom s) stk p) = true ->
   pay_out s p (burns (tally P kf (custom s) stk p)) = Some (s1, ev) ->
-  exec_msgs s1 (p_msgs p) = Some s2 ->
-  exists s', process_active P kf stk s id = Some (s', ev) /\ world s' = world s2 /\
-             exists p', find_prop id (props s') = Some p' /\ p_status p' = SPassed.
+  exec_msgs (xenv_of P kf stk id) (passed_state s1 id (tally P kf (custom s) stk p)) (p_msgs p) = Some s2 ->
+  process_active P kf stk s id = Some (s2, ev) /\
+  exists p', find_prop id (props s2) = Some p' /\ p_status p' = SPassed.
 Proof. exact all_applied. Qed.
 Print Assumptions C15_all_applied.
 
@@ -297,8 +308,8 @@ Theorem C15_atomic_nonvacuous :
       (p_status p, passes v, p_msgs p) = (SVoting, true, [toggle_msg] ++ fail_msg :: []) /\
       match pay_out s p (burns v) with
       | Some (s1, _) =>
-          match exec_msgs s1 [toggle_msg] with
-          | Some si => ext si = 2 :: ext s1 /\ exec_one si fail_msg = None
+          match exec_msgs (xenv_of P0 kf_code stk1 2) (passed_state s1 2 v) [toggle_msg] with
+          | Some si => ext si = 2 :: ext s1 /\ exec_one (xenv_of P0 kf_code stk1 2) si fail_msg = None
           | None => False
           end
       | None => False
@@ -436,9 +447,9 @@ Proof. exact supply_conservation. Qed.
 Print Assumptions C15_supply_conservation.
 
 (* ---- the code's shape, read off the current sources by harness/gen_c15 (gen/Gen_GovShape.v) ---- *)
-Theorem C15_gen_exec_all_or_nothing : forall s1 ms,
-  exec_outcome_sh gen_shape s1 ms =
-  match exec_msgs s1 ms with Some s2 => (s2, SPassed) | None => (s1, SFailed) end.
+Theorem C15_gen_exec_all_or_nothing : forall e s1 ms,
+  exec_outcome_sh gen_shape e s1 ms =
+  match exec_msgs e s1 ms with Some s2 => (s2, SPassed) | None => (s1, SFailed) end.
 Proof. exact gen_exec_all_or_nothing. Qed.
 Print Assumptions C15_gen_exec_all_or_nothing.
 
@@ -504,13 +515,13 @@ Print Assumptions C15_stored_zero_quorum_is_zero.
 
 Theorem C15_shadowed_err_matters :
   let sh := with_exec gen_shape false 0 0 1 true true in
-  (ext (fst (exec_outcome_sh sh s_any [m_ok; m_bad])), snd (exec_outcome_sh sh s_any [m_ok; m_bad])) = ([7], SPassed) /\
-  (ext (fst (exec_outcome_sh gen_shape s_any [m_ok; m_bad])), snd (exec_outcome_sh gen_shape s_any [m_ok; m_bad])) = ([], SFailed).
+  (ext (fst (exec_outcome_sh sh e_any s_any [m_ok; m_bad])), snd (exec_outcome_sh sh e_any s_any [m_ok; m_bad])) = ([7], SPassed) /\
+  (ext (fst (exec_outcome_sh gen_shape e_any s_any [m_ok; m_bad])), snd (exec_outcome_sh gen_shape e_any s_any [m_ok; m_bad])) = ([], SFailed).
 Proof. exact shadowed_err_matters. Qed.
 Print Assumptions C15_shadowed_err_matters.
 
 Theorem C15_per_message_branch_matters :
   let sh := with_exec gen_shape true 1 1 0 false false in
-  (ext (fst (exec_outcome_sh sh s_any [m_ok; m_bad])), snd (exec_outcome_sh sh s_any [m_ok; m_bad])) = ([7], SFailed).
+  (ext (fst (exec_outcome_sh sh e_any s_any [m_ok; m_bad])), snd (exec_outcome_sh sh e_any s_any [m_ok; m_bad])) = ([7], SFailed).
 Proof. exact per_message_branch_matters. Qed.
 Print Assumptions C15_per_message_branch_matters.
